@@ -33,7 +33,10 @@ FINISH = dict(
          "hooks), answers whose body is cut short, a failing newNonce request, an unusable stored certificate / key "
          "path next to a healthy certificate, an endpoint nobody listens on, certificates failing for ever through "
          "their own hook / finalize / an invalid authorization / an account that cannot be registered, 1 and 6 "
-         "certificates with none failing.",
+         "certificates with none failing; hooks FED through their standard input which they read to its end (stdin_str "
+         "templates incl. the empty string, stdin files of a few lines and of more than a pipe holds) on post-operation, "
+         "challenge, clean and file hooks, with and without a failing first attempt, and as the failure report of a "
+         "certificate failing for ever next to healthy ones (an attempt is watched for 32 s without any sign of life).",
 )
 
 BOUND_MS = 30000
